@@ -67,6 +67,11 @@ check("C06", "exploration",
       "Trusts the own tokenizer/normaliser and encoding/xml; DTD-declared entities and attribute types are not interpreted; processing instructions and comments are transparent for white-space runs.",
       "bounded exhaustive grammar enumeration vs independent infoset reader", "DESIGN.md#c06")
 
+check("C05", "exploration",
+      "Path data: 4 start points x every sequence of <=3 (thorough <=4) of 57 command variants (all 20 letters, implicit repetition, coincident/axis-aligned/reflected/degenerate geometry, every arc flag pair, exponents, sign/dot adjacency) x 3 separator styles goes through the exported shortener and the public minifier; an own strict SVG path parser/interpreter must accept the output and obtain the same absolute segments within 1e-9 (only zero-length lines and exactly degenerate curves may be simplified). Documents: 9 root attribute sets x every sequence of <=2 (<=3) of 30 child items (shapes with lengths in every unit, colours, style elements/attributes/CDATA, metadata, foreign-namespace elements and attributes, xlink/xml attributes, text with significant white space, foreignObject, empty defs, comments, PI, DOCTYPE), standalone and inline; compared as element trees after removing exactly what the statement allows, attribute values by kind (numbers exactly, viewBox, colours as sRGB, path data as segments).",
+      "Trusts the own path interpreter, the xmlinfo reader and the CSS named-colour table in /verif; an SVG-only registry is used (embedded CSS is C11's business); paths longer than the bound are not covered.",
+      "bounded exhaustive enumeration vs independent path-data interpreter and tree comparison", "DESIGN.md#c05")
+
 ALL = ["C%02d" % i for i in range(1, 21)]
 NOT_YET = {p: "check not built yet in this revision (planned, see DESIGN.md section 4); not claimed until its command exists" for p in ALL if p not in CHECKS}
 
